@@ -39,7 +39,7 @@ CLAIMS["C06"] = dict(
 
 
 CLAIMS["C12"] = dict(
-    text="Proof (unbounded, every syntax tree satisfying the class typing wfAST, every flag combination a caller can pass) that each of the 27 byteCode methods, condition, discardingWhile, pushingWhile, ByteCode and ByteCodeNoStck satisfies one type-level contract K whatever strategy the flags select: the code and data segments only grow (existing entries unchanged), every emitted instruction satisfies wfInstr (operand kinds the VM can fetch, data-segment indices in range, MOV/INC destinations assignable), the returned operand descriptor occupies only the requested field, is never an immediate, is a temp-register operand only where the caller can accept one (OpDepth>0 / AcceptTemp / Discard, never under ForbidTemp), an expression always yields a value descriptor, and a statement yields none only when its result is dropped, returned or inside a function. Every if/if-else/while variant keeps the conditional jump that tests its condition (cond_tested), so the condition is type-checked in every position. The same-operand shortcut compares operands structurally without panicking. Code-generation choices that the property names are pinned by obligations of their own: the operator table of BinOp equals the documented one and the left operand is compiled into field 1 (the VM computes src1 op src0); condition() emits jump-if-false exactly when (false branch wanted) differs from (condition negated), and every if/while pairs each test with the code that follows it; the increment instruction is used only for `x = x + 1` / `x = 1 + x`; a value-producing while yields the initial nil on zero iterations also in returning position and pops the previous iteration's value; HasCall is exact.",
+    text="Proof (unbounded, every syntax tree satisfying the class typing wfAST, every flag combination a caller can pass) that each of the 27 byteCode methods, condition, discardingWhile, pushingWhile, ByteCode and ByteCodeNoStck satisfies one type-level contract K whatever strategy the flags select: the code and data segments only grow (existing entries unchanged), every emitted instruction satisfies wfInstr (operand kinds the VM can fetch, data-segment indices in range, MOV/INC destinations assignable), the returned operand descriptor occupies only the requested field, is never an immediate, is a temp-register operand only where the caller can accept one (OpDepth>0 / AcceptTemp / Discard, never under ForbidTemp), an expression always yields a value descriptor, and a statement yields none only when its result is dropped, returned or inside a function. Every if/if-else/while variant keeps the conditional jump that tests its condition (cond_tested), so the condition is type-checked in every position. The same-operand shortcut compares operands structurally without panicking. Code-generation choices that the property names are pinned by obligations of their own: the operator table of BinOp equals the documented one and the left operand is compiled into field 1 (the VM computes src1 op src0); condition() emits jump-if-false exactly when (false branch wanted) differs from (condition negated), and every if/while pairs each test with the code that follows it; the increment instruction is used only for `x = x + 1` / `x = 1 + x`; a value-producing while yields the initial nil on zero iterations also in returning position and pops the previous iteration's value; HasCall is exact; when the caller forbids the temp register (it holds a value there), no instruction emitted for the operand writes it (function-literal bodies exempt), for every byteCode method.",
     note="Not decided: equality of run-time values across strategies (that needs the VM semantics composed with the emitted code; only the structural contract K and the VM-side interface are proved). Assumed: wfAST (the parser and STRewrite only build well-typed trees: expression slots hold expression nodes) via one-level unfolding assumptions per node type; the record view of instruction words (justified bit-level in types/bytecode, C15); HasCall/Constant/Name are trusted pure. Operand-range refusals of EncodeSrc at call sites are panics, not errors (finding D15b, see DESIGN.md), and are outside this check.",
     ref="DESIGN.md section 4 C12 and change log")
 CLAIMS["C05"] = dict(
